@@ -381,6 +381,31 @@ pub fn mutate(w: &Walk, seed_img: &[u8], opn: usize, r: &mut Rng, fc: &FastCrc) 
             }
             mk(replace_range(xml, open_end, open_end, &body), format!("{} extra records", n))
         }
+        "xml-entities" if r.bool() => {
+            // flat expansion: ONE large entity referenced thousands of times from text content. No nesting, so a
+            // parser's entity-depth guard does not see it; the expanded text is sizes of magnitude bigger than the input
+            let decl_end = xml.find("?>").map(|i| i + 2).unwrap_or(0);
+            let size = *r.pick(&[64usize * 1024, 512 * 1024]);
+            let refs = *r.pick(&[1500usize, 6000]);
+            let mut dtd = String::with_capacity(size + 100);
+            dtd.push_str("\n<!DOCTYPE e57Root [\n<!ENTITY big \"");
+            for _ in 0..size {
+                dtd.push('x');
+            }
+            dtd.push_str("\">\n]>\n");
+            let mut x = replace_range(xml, decl_end, decl_end, &dtd);
+            let tag = *r.pick(&["<guid type=\"String\">", "<coordinateMetadata type=\"String\">", "<name type=\"String\">"]);
+            let at = match x.find(tag) {
+                Some(i) => i + tag.len(),
+                None => x.find("<guid type=\"String\">")? + "<guid type=\"String\">".len(),
+            };
+            let mut body = String::with_capacity(refs * 5);
+            for _ in 0..refs {
+                body.push_str("&big;");
+            }
+            x = replace_range(&x, at, at, &body);
+            mk(x, format!("flat entity expansion {} bytes x {}", size, refs))
+        }
         "xml-entities" => {
             let decl_end = xml.find("?>").map(|i| i + 2).unwrap_or(0);
             let mut dtd = String::from("\n<!DOCTYPE e57Root [\n<!ENTITY a \"aaaaaaaaaaaaaaaaaaaaaaaaaaaaaaaaaaaaaaaaaaaaaaaaaaaaaaaaaaaaaaaa\">\n");
